@@ -144,6 +144,8 @@ def eye(dim, dtype=None, requires_grad=False, name=None, device=None):
 
 class Tensor:
     
+    __array_ufunc__ = None # NumPy scalars and arrays defer to the reflected operators (np.float64(2) + t is a Tensor)
+    
     def __init__(self, data, children:tuple=(), operation:str=None, requires_grad:bool=False, dtype=None, name:str=None, device:Device=None) -> None:
         """
         Creates a Tensor object from the given data, which is always transformed internally into a numpy array.
